@@ -11,6 +11,7 @@ import itertools
 import numpy as np
 
 from tvmon import core, gen, ref
+from tvmon import docsig
 from tvmon.ref import EPS
 from tvmon.interpose import installed
 
@@ -155,7 +156,7 @@ _state = {'nested': 0}
 
 
 def make_truncate(orig):
-    sig = inspect.signature(orig)
+    sig = docsig.sig('truncate')
 
     def truncate(*args, **kwargs):
         ba = sig.bind(*args, **kwargs)
@@ -311,6 +312,17 @@ def run_add_many(case, ctx):
                 Y[0] *= 10.0 ** int(rng.integers(-3, 4))
             items.append(Y)
             dense.append(np.asarray(ref.dense_ld(Y), dtype=float))
+    if d >= 3 and isinstance(items[0], list) and rng.random() < 0.3:
+        # the first summand stored in a narrower dtype than the others
+        # (integer counts, float32 data): the sum is formed in double
+        if rng.random() < 0.5:
+            items[0] = [np.rint(2 * G).astype([np.int64, np.int32][int(
+                rng.integers(2))]) for G in items[0]]
+        else:
+            items[0] = [G.astype(np.float32) for G in items[0]]
+        dense[0] = np.asarray(ref.dense_ld([np.asarray(G, dtype=float)
+            for G in items[0]]), dtype=float)
+        ctx.event('add_many-first-summand-narrow-dtype')
     e = float(10.0 ** rng.uniform(-8, -0.5))
     tf = case['trunc_freq']
     cap = 1e12 if rng.random() < 0.7 else int(rng.integers(1, 5))
